@@ -32,14 +32,14 @@ func stmtTemplates(list string) []StmtT {
 var leafStmts = stmtTemplates(`
 assign      | a = a + 1
 define      | c$n := a ;; sink(c$n)
-shadow      | a := a ;; sink(a)
+~shadow      | a := a ;; sink(a)
 ~shadowp     | p := p.P ;; sink(p)
 incdec      | a++
 ~opassign    | a += 2
 call        | f()
 ~callsink    | sink(a)
 send        | ch <- a
-recv        | <-ch
+~recv        | <-ch
 ~recvdef     | x$n, ok$n := <-ch ;; sink(x$n, ok$n)
 go          | go f()
 defer       | defer f()
@@ -53,26 +53,27 @@ fallthrough | fallthrough
 empty       | ;
 declvar     | var d$n int ;; sink(d$n)
 ~declvar2    | var d$n, e$n = a, str ;; sink(d$n, e$n)
-declconst   | const k$n = 1 ;; sink(k$n)
+~declconst   | const k$n = 1 ;; sink(k$n)
 decltype    | type t$n struct{ F int } ;; sink(t$n{a})
 ~decltype2   | type t$n int ;; var u$n t$n ;; sink(u$n)
 declalias   | type t$n = []int ;; sink(t$n(s))
-declfn      | g$n := func(a int) int { return a + 1 } ;; sink(g$n(a))
+~declfn      | g$n := func(a int) int { return a + 1 } ;; sink(g$n(a))
 panic       | panic("x")
-deref       | sink(p.A)
+print       | print(a, str) ;; println()
+~deref       | sink(p.A)
 ~storefield  | p.A = a
 ~mapassign   | m["k"] = a
 ~mapincr     | m[str]++
 ~tuple       | a, str = len(str), str[1:]
-commaok     | x$n, ok$n := m["k"] ;; sink(x$n, ok$n)
+~commaok     | x$n, ok$n := m["k"] ;; sink(x$n, ok$n)
 ~assertok    | x$n, ok$n := v.(int) ;; sink(x$n, ok$n)
 blank       | _ = a
 ~selfassign  | a = a
 ~append      | s = append(s, a)
-nilcheck    | if p == nil { return }
+~nilcheck    | if p == nil { return }
 errcheck    | if e != nil { return 0, e }
 selectempty | select {}
-forever     | for { }
+~forever     | for { }
 emptyblock  | { }
 emptyswitch | switch { }
 emptyselect | select { default: }
@@ -82,17 +83,17 @@ var containerStmts = stmtTemplates(`
 block       | { ;; $B ;; }
 if          | if a > 0 { ;; $B ;; }
 ifelse      | if a > 0 { ;; $B ;; } else { ;; $B ;; }
-ifelseif    | if a > 0 { ;; $B ;; } else if a < 0 { ;; $B ;; } else { ;; $B ;; }
+~ifelseif    | if a > 0 { ;; $B ;; } else if a < 0 { ;; $B ;; } else { ;; $B ;; }
 ifinit      | if c$n := f(); c$n > 0 { ;; $B ;; }
 ~ifnil       | if p != nil { ;; $B ;; }
 ~ifnot       | if !(a > 0) { ;; sink(a) ;; } else { ;; $B ;; }
-ifcommaok   | if x$n, ok$n := v.(int); ok$n { ;; sink(x$n) ;; $B ;; }
+~ifcommaok   | if x$n, ok$n := v.(int); ok$n { ;; sink(x$n) ;; $B ;; }
 ~iferr       | if err := e; err != nil { ;; $B ;; }
 for         | for { ;; $B ;; }
-forcond     | for a < 10 { ;; $B ;; }
+~forcond     | for a < 10 { ;; $B ;; }
 for3        | for i$n := 0; i$n < a; i$n++ { ;; $B ;; }
 ~forpost     | for ; a < 10; a++ { ;; $B ;; }
-rangeint    | for i$n := range a { ;; sink(i$n) ;; $B ;; }
+~rangeint    | for i$n := range a { ;; sink(i$n) ;; $B ;; }
 rangesl     | for i$n, x$n := range s { ;; sink(i$n, x$n) ;; $B ;; }
 rangemap    | for k$n := range m { ;; sink(k$n) ;; $B ;; }
 rangech     | for x$n := range ch { ;; sink(x$n) ;; $B ;; }
@@ -101,15 +102,15 @@ rangefn     | for x$n := range seq { ;; sink(x$n) ;; $B ;; }
 ~rangenov    | for range s { ;; $B ;; }
 ~rangeassign | for a = range s { ;; $B ;; }
 switch      | switch { ;; case a > 0: ;; $B ;; default: ;; $B ;; }
-switchtag   | switch a { ;; case 1: ;; $B ;; case 2, 3: ;; sink(a) ;; default: ;; }
+~switchtag   | switch a { ;; case 1: ;; $B ;; case 2, 3: ;; sink(a) ;; default: ;; }
 ~switchlast  | switch a { ;; case 1: ;; default: ;; $B ;; }
 switchinit  | switch c$n := f(); c$n { ;; case 1: ;; $B ;; }
 ~switchinit2 | switch c$n := f(); { ;; case c$n > 0: ;; $B ;; }
 typeswitch  | switch x$n := v.(type) { ;; case int: ;; sink(x$n) ;; $B ;; case nil: ;; $B ;; default: ;; sink(x$n) ;; }
-typeswitch2 | switch v.(type) { ;; case string, error: ;; $B ;; }
+~typeswitch2 | switch v.(type) { ;; case string, error: ;; $B ;; }
 ~typeswitchi | switch x$n := f(); y$n := v.(type) { ;; case int: ;; sink(x$n, y$n) ;; $B ;; }
 select      | select { ;; case x$n := <-ch: ;; sink(x$n) ;; $B ;; case ch <- a: ;; $B ;; default: ;; $B ;; }
-selectnodef | select { ;; case <-ch: ;; $B ;; }
+~selectnodef | select { ;; case <-ch: ;; $B ;; }
 ~selectok    | select { ;; case x$n, ok$n := <-ch: ;; sink(x$n, ok$n) ;; $B ;; }
 ~selectasg   | select { ;; case a = <-ch: ;; $B ;; }
 labelgoto   | L$n: ;; $B ;; if cond() { ;; goto L$n ;; }
@@ -117,15 +118,15 @@ labelfor    | L$n: ;; for a < 10 { ;; $B ;; if cond() { ;; break L$n ;; } ;; if 
 ~labelrange  | L$n: ;; for range s { ;; $B ;; continue L$n ;; }
 labelswitch | L$n: ;; switch { ;; case a > 0: ;; $B ;; break L$n ;; }
 labelselect | L$n: ;; select { ;; case <-ch: ;; $B ;; break L$n ;; }
-labelblock  | L$n: ;; { ;; $B ;; if cond() { ;; goto L$n ;; } ;; }
+~labelblock  | L$n: ;; { ;; $B ;; if cond() { ;; goto L$n ;; } ;; }
 labelinner  | for a < 10 { ;; L$n: ;; $B ;; if cond() { ;; goto L$n ;; } ;; }
 gotofwd     | if cond() { ;; goto L$n ;; } ;; $B ;; L$n: ;; sink(a)
 ~gotoend     | $B ;; goto L$n ;; L$n:
 gofn        | go func() { ;; $B ;; }()
 deferfn     | defer func() { ;; $B ;; }()
 deferrec    | defer func() { ;; if x$n := recover(); x$n != nil { ;; $B ;; } ;; }()
-callfn      | func() { ;; $B ;; }()
-fnval       | g$n := func(a int) (int, error) { ;; $B ;; return a, nil ;; } ;; sink(g$n)
+~callfn      | func() { ;; $B ;; }()
+~fnval       | g$n := func(a int) (int, error) { ;; $B ;; return a, nil ;; } ;; sink(g$n)
 ~fnnamed     | g$n := func() (r int, err error) { ;; $B ;; return ;; } ;; sink(g$n)
 iterfn      | it$n := func(yield func(int) bool) { ;; $B ;; yield(a) ;; } ;; for x$n := range it$n { ;; sink(x$n) ;; }
 `)
